@@ -213,7 +213,7 @@ def one(m):
     sh(f"git -C /repo archive HEAD | tar -x -C {d}")
     open(f"{d}/{m['file']}", "wb").write(mutated(m))
     res = {"id": m["id"]}
-    miss = tests_missing(d)
+    miss = [] if os.environ.get("MUT_SKIP_TESTS") else tests_missing(d)          # (re-runs of known survivors skip the suite)
     res["killed_by_tests"] = bool(miss)
     if not miss:
         rc, out = sh(f"cd {VERIF} && ./check all --root {d} --no-write", 900)
